@@ -196,15 +196,18 @@ def parse_template(lines, flavour):
         elif s.startswith("//@before-loop "):
             sink = []
             cur.splices.append(("before-loop", int(s.split()[1]), sink))
-        elif re.match(r"//@(before|after|before-stmt|after-stmt|in-block) ", s):
-            m = re.match(r"//@(before-stmt|after-stmt|in-block|before|after)\s+`(.*)`\s*(?:#(\d+)/(\d+))?\s*$", s)
+        elif re.match(r"//@(before|after|before-stmt|after-stmt|in-block)(\[loop \d+\])? ", s):
+            m = re.match(r"//@(before-stmt|after-stmt|in-block|before|after)(?:\[loop (\d+)\])?\s+`(.*)`\s*(?:#(\d+)/(\d+))?\s*$", s)
             if not m:
                 raise ExtractError("bad splice at %s" % origin)
             sink = []
-            pats = m.group(2).split("` | `")
-            if m.group(3):
-                pats = (pats, int(m.group(3)), int(m.group(4)))
-            cur.splices.append((m.group(1), pats, sink))
+            pats = m.group(3).split("` | `")
+            if m.group(4):
+                pats = (pats, int(m.group(4)), int(m.group(5)))
+            where = m.group(1)
+            if m.group(2):
+                where = "%s@%s" % (where, m.group(2))     # anchor searched inside the body of loop n only
+            cur.splices.append((where, pats, sink))
         elif s.startswith("//@loop-end "):
             sink = []
             cur.splices.append(("loop-end", int(s.split()[1]), sink))
@@ -980,6 +983,14 @@ def generate(template_path, flavour, repo="/repo", vacuity=False, rules=None, ba
         if n17 and b.id not in ("Graph::index", "Graph::index_val"):
             body = rx17.sub(lambda mm: "%s.index(&%s)" % (mm.group(1), mm.group(2)), body)
             stats["R17"] = stats.get("R17", 0) + n17
+        # R12: the targets of an edge list through an iterator adapter chain -> the shim targets_of(&edges)
+        rx12e = re.compile(r"\b([\w\.]+)\s*\.\s*extend\(\s*([\w\.]+)\s*\.\s*iter\(\)\s*\.\s*map\(\s*\|\s*Edge\(\s*_\s*,\s*(\w+)\s*,\s*_\s*\)\s*\|\s*\3\s*\.\s*clone\(\)\s*\)\s*\)")
+        rx12c = re.compile(r"\b([\w\.]+)\s*\.\s*iter\(\)\s*\.\s*map\(\s*\|\s*Edge\(\s*_\s*,\s*(\w+)\s*,\s*_\s*\)\s*\|\s*\2\s*\.\s*clone\(\)\s*\)\s*\.\s*collect\(\)")
+        n12 = len(rx12e.findall(body)) + len(rx12c.findall(body))
+        if n12:
+            body = rx12e.sub(lambda mm: "{ let mut r12_ = targets_of(&%s); %s.append(&mut r12_); }" % (mm.group(2), mm.group(1)), body)
+            body = rx12c.sub(lambda mm: "targets_of(&%s)" % mm.group(1), body)
+            stats["R12"] = stats.get("R12", 0) + n12
         # R18: the set-exclusion filter closure handed to a traversal builder -> the shim filter_excl(&set) (the closure tests
         # the edge's target) resp. filter_excl_src(&set) (it tests the edge's source)
         rx18 = re.compile(r"\.\s*filter\(\s*&mut\s*\|\s*Edge\(\s*(\w+)\s*,\s*(\w+)\s*,\s*_\s*\)\s*\|\s*!\s*(\w+)\s*\.\s*contains\(\s*(\w+)\s*\.\s*key\(\)\s*\)\s*\)")
@@ -1072,9 +1083,16 @@ def generate(template_path, flavour, repo="/repo", vacuity=False, rules=None, ba
                     pats = pat
                     if isinstance(pat, tuple):
                         pats, nth, total = pat
+                    lo, hi = 0, len(body)
+                    if "@" in where:
+                        where, ln_ = where.split("@")
+                        ln_ = int(ln_)
+                        if not (1 <= ln_ <= len(loops)):
+                            raise ExtractError("anchor scoped to loop %d: no such loop" % ln_)
+                        lo, hi = loops[ln_ - 1]["hdr_end"], loops[ln_ - 1]["body_close"]
                     ms = []
                     for alt in pats:
-                        ms.extend(re.compile(pat_to_regex(alt)).finditer(body))
+                        ms.extend(x for x in re.compile(pat_to_regex(alt)).finditer(body) if lo <= x.start() < hi)
                     ms.sort(key=lambda x: x.start())
                     if len(ms) != total and not (len(ms) > total and not isinstance(pat, tuple)):
                         raise ExtractError("anchor `%s` matched %d times (expected %d)" % ("` | `".join(pats), len(ms), total))
